@@ -2373,8 +2373,49 @@ impl Translator {
                                         self.emit(st, Instr::SetIndex(Reg::Top, Reg::Top));
                                     }
                                     _ => {
-                                        // interface method Index::index_set()
-                                        unimplemented!()
+                                        // user Index type:
+                                        // index_set(c, i, index_get(c, i) op v)
+                                        let index_iface_decl =
+                                            self.statics.get_iface_decl("prelude.Index");
+                                        let fn_index_get_ty = self.statics.index_get_types
+                                            [&expr1.id]
+                                            .solution()
+                                            .unwrap();
+                                        let SolvedType::Function(get_args, get_out) =
+                                            &fn_index_get_ty
+                                        else {
+                                            unreachable!()
+                                        };
+                                        let fn_index_set_ty = Type::Function(
+                                            vec![
+                                                get_args[0].clone(),
+                                                get_args[1].clone(),
+                                                (**get_out).clone(),
+                                            ],
+                                            SolvedType::Void.into(),
+                                        );
+                                        // args
+                                        self.translate_expr(array, offset_table, mono, st);
+                                        self.translate_expr(index, offset_table, mono, st);
+                                        // current value
+                                        self.translate_expr(array, offset_table, mono, st);
+                                        self.translate_expr(index, offset_table, mono, st);
+                                        self.translate_iface_method_call_helper(
+                                            st,
+                                            mono,
+                                            &index_iface_decl,
+                                            0,
+                                            &fn_index_get_ty,
+                                        );
+                                        self.translate_expr(rvalue, offset_table, mono, st);
+                                        perform_op(st);
+                                        self.translate_iface_method_call_helper(
+                                            st,
+                                            mono,
+                                            &index_iface_decl,
+                                            1,
+                                            &fn_index_set_ty,
+                                        );
                                     }
                                 }
                             }
